@@ -1439,6 +1439,40 @@ pub fn c08(tier: Tier, caps: &Caps) -> Vec<FamilyReport> {
         many.push(SPacket::Ack { kind: AckKind::PubAck, pid: 1, reason: 0x10, props: (0..40).map(|i| pr(0x26, PVal::Pair(b"k".to_vec(), format!("{}", i).into_bytes()))).collect(), form: 2 }.encode());
         many.push(SPacket::Disconnect { reason: 0x8B, props: (0..40).map(|i| pr(0x26, PVal::Pair(b"k".to_vec(), format!("{}", i).into_bytes()))).collect(), form: 2 }.encode());
     }
+    // CONNACKs with many user properties around the values that matter
+    let mut many_ca: Vec<Vec<u8>> = Vec::new();
+    {
+        let pr = |id: u8, val: PVal| Prop { id, val };
+        for n in [1usize, 7, 8, 9, 15, 16, 17, 26, 27, 28, 31, 32, 33, 50, 63, 64, 65, 120, 255, 256, 257] {
+            for place in 0..3u8 {
+                let users = |m: usize| (0..m).map(|i| pr(0x26, PVal::Pair(format!("k{}", i % 4).into_bytes(), format!("{}", i).into_bytes()))).collect::<Vec<_>>();
+                let matter = vec![pr(0x21, PVal::U16(2)), pr(0x27, PVal::U32(90)), pr(0x24, PVal::Byte(1)), pr(0x13, PVal::U16(33))];
+                let props: Vec<Prop> = match place {
+                    0 => users(n).into_iter().chain(matter).collect(),
+                    1 => matter.into_iter().chain(users(n)).collect(),
+                    _ => {
+                        let mut v = users(n / 2);
+                        v.extend(matter);
+                        v.extend(users(n - n / 2));
+                        v
+                    }
+                };
+                many_ca.push(SPacket::ConnAck { session_present: false, reason: 0, props: props.clone() }.encode());
+                if place == 0 {
+                    many_ca.push(SPacket::ConnAck { session_present: false, reason: 0x87, props }.encode());
+                }
+            }
+        }
+    }
+    out.push(sweep(
+        "C08-connack-with-many-user-properties",
+        "C08",
+        many_ca.len() as u64,
+        caps,
+        json!({"cases": "CONNACK (accepting, and refusing with 0x87) carrying 1..257 user properties (repeated keys) in front of, behind and around Receive Maximum, Maximum Packet Size, Maximum QoS and Server Keep Alive", "rx": MANY_RX}),
+        &|i| c08_as_connack_cfg(&many_ca[i as usize], MANY_RX, "mcx"),
+        &|i| json!({"phase": "as-connack", "bytes": mr::hex(&many_ca[i as usize]), "rx": MANY_RX, "client_id": "mcx"}),
+    ));
     out.push(sweep(
         "C08-many-properties-and-reason-codes-in-one-packet",
         "C08",
